@@ -108,14 +108,33 @@ class Topo:
         self.links.append((out, elems, comp, inp))
         return elems
 
-    def composition(self):
-        c = Obj(cls=self.repo.cls("Composition"), label="composition")
-        c.fields.update(
-            _output_owners=dict(self.owner),
-            _components=list(self.comps.values()),
-            logger=Logger(label="logger"),
-        )
+    def composition(self, members=None, **extra):
+        """A Composition over this topology: attributes seeded from the real constructor; the owner maps are put into the
+        attributes the class itself fills from _map_outputs / _map_inputs (whatever they are called)."""
+        from .absbase import FinamInterp, seed_from_init
+        cls = self.repo.cls("Composition")
+        c = Obj(cls=cls, label="composition")
+        comps = list(members) if members is not None else list(self.comps.values())
+        seed_from_init(FinamInterp(self.repo), cls, c, {"components": comps})
+        in_owner = {i: k for k in self.comps.values() for i in k.fields["inputs"].values()}
+        c.fields[composition_attr(self.repo, "_map_outputs", "_output_owners")] = dict(self.owner)
+        c.fields[composition_attr(self.repo, "_map_inputs", "_input_owners")] = in_owner
+        c.fields["logger"] = Logger(label="logger")
+        c.fields.update(extra)
         return c
+
+
+def composition_attr(repo, filler, default):
+    """Attribute of Composition that is assigned the result of the helper `filler` (e.g. `self.X = _map_outputs(...)`)."""
+    import ast
+    cls = repo.cls("Composition")
+    for f in cls.methods.values():
+        for n in ast.walk(f.node):
+            if isinstance(n, ast.Assign) and isinstance(n.value, ast.Call) and getattr(n.value.func, "id", getattr(n.value.func, "attr", None)) == filler:
+                for t in n.targets:
+                    if isinstance(t, ast.Attribute) and isinstance(t.value, ast.Name) and t.value.id == "self":
+                        return t.attr
+    return default
 
 
 def data_path_term(kinds, delay_names, start):
